@@ -22,13 +22,14 @@ RULE = ("Hypothesis: 1-3 integer-tick well-formed sequences of unequal length pu
         "from a sequence shorter than its capacity or split tracks of unequal length into bars. Distinct by case digest.")
 RULE = RULE + " Round f: tokeniser ppqn in {None, 24, 48, 96, 120}; token grammar checked before detokenise."
 RULE = RULE + " Round h: tuplet ratios 5:4, 6:4, 7:4, 10:8, 9:8 and up to three dots."
+RULE = RULE + " Round j: detokenise of pseudo-random vocabulary streams as a pipeline stage."
 ASSUMPTIONS = ["an exception raised by a stage (BarException, TokenisationException, IndexError on empty content, ...) means the "
                "pipeline produced content that stage does not accept: the pipeline ends as inconclusive"]
 TIERS = {"quick": dict(shards=8, examples=500), "thorough": dict(shards=16, examples=6000)}
 
 TOKEN_RE = re.compile(r"^(pad|sta|sto|bar|rst_\d+|trk_\d+|val_\d+|vel_\d+|tsg_\d+_\d+|((trk_\d+-)?pit_\d+(-val_\d+)?(-vel_\d+)?))$")
 OPS = ["quantise", "qnl", "qan", "normalise", "pad", "cutoff", "transpose", "scale", "set_channel", "split", "merge",
-       "concatenate", "bar", "split_bars", "composition", "tokenise", "tokenise_bars"]
+       "concatenate", "bar", "split_bars", "composition", "tokenise", "tokenise_bars", "detokenise_stream"]
 SIGS = [(4, 4), (3, 4), (6, 8), (2, 4), (5, 8), (3, 8), (12, 8), (2, 2), (1, 4), (7, 16), (3, 16), (6, 64), (10, 64), (7, 32)]
 
 
@@ -209,6 +210,21 @@ def check(case):
                         return out
                     new_pool = tok.detokenise(tokens)
                 pool = new_pool
+            elif name == "detokenise_stream":
+                # a hand-written / model-generated stream of vocabulary tokens (signature tokens, bar tokens in bars that still
+                # have room, rests, notes) is detokenised; the resulting sequences continue through the pipeline
+                tok = Tokeniser(num_tracks=1 + a % 2, velocity_bins=[1, 2, 8][a % 3], flag_fuse_value=flag, pitch_range=(60, 61),
+                                ppqn=[None, None, 48, 24][b % 4])
+                vocab = list(tok.dictionary)
+                groups = [[t for t in vocab if t.startswith(pre) or ("-" + pre) in t] for pre in ("tsg_", "bar", "rst_", "pit_", "val_", "trk_")]
+                groups = [g for g in groups if g]
+                x = (a * 7919 + b * 104729 + r * 31 + idx) % 2 ** 31
+                stream = []
+                for _ in range(4 + (a + b) % 14):
+                    x = (1103515245 * x + 12345) % 2 ** 31
+                    g = groups[(x >> 8) % len(groups)]
+                    stream.append(g[(x >> 16) % len(g)])
+                pool = tok.detokenise(stream)
             elif name == "tokenise":
                 tok = Tokeniser(num_tracks=len(pool), velocity_bins=[1, 2, 8, 15][a % 4], flag_fuse_value=flag,
                                 flag_fuse_velocity=bool(a % 2), flag_fuse_track=bool(b % 2), pitch_range=(21, 108),
